@@ -22,14 +22,19 @@ theorem full_multi_iter_eq_single (sched : Sched α) (hs : sched.Fair) (g : Game
     (p : RegretParams α) (draw : DrawFn α) (target it : Nat) (s : SolveSt α)
     (log : List (DrawRec α)) :
     vanillaMultiIterS sched g false p draw target it s log = vanillaIter g false p draw it s log := by
-  sorry
+  obtain ⟨h1, h2, h3, -, h5⟩ := Van.vanillaMultiIterS_rel sched hs g false p draw target it s log log
+  exact Prod.ext h1 (Prod.ext h2 (Prod.ext h3 (h5 rfl rfl)))
 
 /-- **thread-count invariance of the unsampled solver**: for every task target and every fair
 schedule the multi-threaded solve returns exactly what the single-threaded solve returns -/
 theorem full_multi_eq_single (sched : Sched α) (hs : sched.Fair) (g : Game α)
     (p : RegretParams α) (draw : DrawFn α) (T : Nat) (thr : Option (Ext α)) (target : Nat) :
     solveVanillaMultiS sched g false p draw T thr target = solveVanillaSingle g false p draw T thr := by
-  sorry
+  have hstep : vanillaMultiIterS sched g false p draw target = vanillaIter g false p draw := by
+    funext it s log
+    exact full_multi_iter_eq_single sched hs g p draw target it s log
+  unfold solveVanillaMultiS solveVanillaSingle
+  rw [hstep]
 
 /-- through `Game::solve`: whatever thread count is requested (`0` = ask the operating system),
 a solve that does not return the thread-count error returns the single-threaded result -/
@@ -38,6 +43,13 @@ theorem full_thread_count_invariant (env : Env) (sched : Sched α) (hs : sched.F
     (draw : DrawFn α) (out : SolveOut α)
     (h : gameSolve env sched g .full T thr threads params draw = .ok out) :
     out = solveVanillaSingle g false (params.getD RegretParams.default) draw T thr := by
-  sorry
+  unfold gameSolve at h
+  simp only at h
+  split_ifs at h with h1 h2 h3
+  · simp only [Except.ok.injEq] at h
+    exact h.symm
+  · simp only [Except.ok.injEq] at h
+    rw [← h]
+    exact full_multi_eq_single sched hs g _ draw T thr _
 
 end Cfr
